@@ -147,8 +147,8 @@ def check(pid, tier='quick', seed=0):
                 if 'esource limit' in msg or 'rlimit' in msg:
                     hard.add(msg)
             for f in r.info['functions']:
-                if not fn_in_scope(globs, f['fn']):
-                    continue
+                if not fn_in_scope(globs, f['fn']) or f.get('prooffn'):
+                    continue   # (a proof function of /verif/spec has no precondition and no body to probe)
                 vac_checked += 1
                 if f['fn'] not in vfail and not hard:
                     undecided.append('%s: %s verifies an assertion that must fail at the start of its body: contradictory precondition, vacuous contract' % (u, f['fn']))
